@@ -2,7 +2,8 @@
     delivery and of the client's merge is tied to the implementation by the correspondence; proved here
     are the content function's agreement with the specification, the commutation of one object's group
     payloads, and the kept findings. *)
-From GV Require Import Base.Prelude Model.Exec Model.Defer Proofs.ExecProofs Proofs.DeferProofs.
+From GV Require Import Base.Prelude Model.Exec Model.Defer Model.DeferProto Proofs.ExecProofs Proofs.DeferProofs Proofs.DeferProtoProofs.
+From Coq Require Import Permutation.
 Open Scope string_scope.
 Open Scope list_scope.
 
@@ -32,3 +33,35 @@ Theorem C13_nested_defer_order_refuted :
   end.
 Proof. exact nested_order_witness. Qed.
 Print Assumptions C13_nested_defer_order_refuted.
+
+(** The delivery clauses, over EVERY interleaving of group goroutines (started by the initial execution or by a
+    running group, any number, any nesting) and the consumer: when the response function has returned nil, hasNext
+    was true on every payload but the last, every group that was started has been delivered exactly once, and no
+    goroutine is left dispatching or blocked in its send. *)
+Theorem C13_delivery_complete : forall tr s,
+  prun pinit tr = Some s -> ps_phase s = PDone ->
+  has_next_shape (ps_out s) = true /\ Permutation (delivered s) (ps_started s) /\ NoDup (delivered s) /\
+  ps_running s = [] /\ ps_ready s = [].
+Proof. exact delivery_complete_lemma. Qed.
+Print Assumptions C13_delivery_complete.
+
+(** The payload sequence ends: in every reachable state that is not finished a step other than starting a new
+    group is enabled (the consumer is never stuck waiting for a result nobody will send), and once no further
+    group is started at most 2 * running + blocked + 2 steps remain. *)
+Theorem C13_delivery_progress : forall tr s,
+  prun pinit tr = Some s -> ps_phase s <> PDone -> exists l, non_start l = true /\ pstep s l <> None.
+Proof. intros tr s R. apply progress_lemma. exact (prun_inv tr _ _ pinv_init R). Qed.
+Print Assumptions C13_delivery_progress.
+Theorem C13_delivery_bounded : forall tr s s',
+  forallb non_start tr = true -> prun s tr = Some s' -> (List.length tr + measure s' <= measure s)%nat.
+Proof. exact bounded_lemma. Qed.
+Print Assumptions C13_delivery_bounded.
+
+(** What the protocol does NOT enforce (the kept finding above, at protocol level): a nested group can be received
+    before the group that delivers its object. *)
+Theorem C13_child_before_parent_reachable :
+  option_map (fun s => (ps_phase s, ps_out s))
+    (prun pinit [LStartRoot 1; LInitDone; LStartNested 1 2; LFinish 2; LReceive 2; LFinish 1; LReceive 1; LEnd])
+  = Some (PDone, [(None, true); (Some 2, true); (Some 1, false)])%nat.
+Proof. vm_compute. reflexivity. Qed.
+Print Assumptions C13_child_before_parent_reachable.
